@@ -55,7 +55,11 @@ def gen_message(rnd, big_ok=True, allow_close=False):
     k = rnd.random()
     if k < 0.35:
         n = pick_size(rnd, big_ok)
-        return ("text", rand_text(rnd, n))
+        t = rand_text(rnd, n)
+        if rnd.random() < 0.08:
+            # characters that tolerant decoders like to drop or rewrite: a leading U+FEFF, NUL, CR LF, U+2028, U+FFFE
+            t = rnd.choice(["\ufeff", "\ufeff\ufeff", "\x00", "\r\n", "\u2028", "\ufffe"]).encode("utf-8") + t
+        return ("text", t)
     if k < 0.65:
         n = pick_size(rnd, big_ok)
         return ("binary", rand_bytes(rnd, n))
